@@ -264,3 +264,71 @@ func VerifC19Reregister() {
 	h, _, serr := net.SplitHostPort(parsed.Host)
 	verifapi.Assert(serr == nil && h == advertised, "c19.rereg.advertised-address-is-the-acknowledged-one")
 }
+
+// VerifC19Refused: a host registers validly, its connection may end, and the
+// same host then sends a registration that must be refused (no determinable
+// address, or an override under another identity) on a new connection. A
+// refused registration leaves nothing behind: the refused connection is never
+// asked to whitelist anybody and a client is only handed an address whose
+// registration was acknowledged on a connection that is still open.
+func VerifC19Refused() {
+	db := newVerifStore()
+	p := New(db, nil)
+	now := verifapi.Time("now")
+	verifapi.SetNow(now)
+	hid := verifapi.NodeID(1)
+	cid := verifapi.NodeID(0)
+	conn0 := &VerifHost{Name: "conn0", Addr: "203.0.113.5:5000", Behaviours: 1}
+	req := ConnectRequest{NodeInfo: ethnode.UserAgent{Kind: ethnode.Geth, IsFullNode: true}}
+	connect := func(svc *VerifHost, req ConnectRequest) error {
+		nonce := VerifFreshNonce()
+		ctx := jsonrpc2.VerifCtxWithService(context.Background(), svc)
+		_, err := p.Connect(ctx, sigs.SignFor(hid, "vipnode_connect", nonce, req), hid, nonce, req)
+		return err
+	}
+	verifapi.Assert(connect(conn0, req) == nil, "c19.refused.setup")
+	closed0 := verifapi.Bool("conn0-ends")
+	if closed0 {
+		p.CloseRemote(conn0)
+	}
+	var conn1 *VerifHost
+	switch verifapi.Choose("refusal", 3) {
+	case 0: // connection without a source address, no override
+		conn1 = &VerifHost{Name: "conn1", Addr: "", Behaviours: 1}
+	case 1: // override naming another identity
+		conn1 = &VerifHost{Name: "conn1", Addr: "198.51.100.9:5000", Behaviours: 1}
+		req.NodeURI = "enode://" + verifapi.NodeID(2) + "@198.51.100.9:30303"
+	case 2: // override naming the unspecified address on a connection without one
+		conn1 = &VerifHost{Name: "conn1", Addr: "", Behaviours: 1}
+		req.NodeURI = "enode://" + hid + "@[::]:30303"
+	}
+	verifapi.Assert(connect(conn1, req) != nil, "c19.refused.registration-refused")
+	closed1 := verifapi.Bool("conn1-ends")
+	if closed1 {
+		p.CloseRemote(conn1)
+	}
+	verifapi.Reach("c19.refused")
+	// a client asks for hosts
+	db.SetNode(store.Node{ID: store.NodeID(cid), LastSeen: now, Kind: "geth"})
+	preq := PeerRequest{Num: 1}
+	nonce := VerifFreshNonce()
+	resp, _ := p.Peer(context.Background(), sigs.SignFor(cid, "vipnode_peer", nonce, preq), cid, nonce, preq)
+	verifapi.Assert(len(conn1.Calls) == 0, "c19.refused.refused-connection-never-used")
+	n := 0
+	if resp != nil {
+		n = len(resp.Peers)
+		for _, h := range resp.Peers {
+			verifapi.Assert(h.URI == "enode://"+hid+"@203.0.113.5:30303", "c19.refused.advertised-address-is-the-acknowledged-one")
+		}
+	}
+	if closed0 {
+		verifapi.Assert(n == 0, "c19.refused.no-address-handed-out-for-ended-connection")
+	} else {
+		verifapi.Assert(n == 1 && len(conn0.Calls) == 1, "c19.refused.acknowledged-registration-still-served")
+	}
+	want := 1
+	if closed0 {
+		want = 0
+	}
+	verifapi.Assert(p.NumRemotes() == want, "c19.refused.only-acknowledged-connections-registered")
+}
